@@ -26,7 +26,7 @@ func init() {
 var c09Ns = []int{1, 2, 3, 5, 17, 100, 1000}
 
 // skip patterns: never, always, every j-th invocation, data dependent with a rate
-var c09Sigmas = []string{"never", "always", "every2", "every3", "every11", "rate5", "rate30", "rate50", "rate80", "rate91", "rate95", "first9of10", "cleanup-always", "cleanup-rate50", "invariant-rate30", "invariant-rate80"}
+var c09Sigmas = []string{"never", "always", "every2", "every3", "every11", "rate5", "rate30", "rate50", "rate80", "rate91", "rate95", "first9of10", "cleanup-always", "cleanup-rate50", "invariant-rate30", "invariant-rate80", "early-every3", "early-first9of10"}
 
 func c09Scenarios(cfg runCfg) []Scenario {
 	var out []Scenario
@@ -44,7 +44,7 @@ func c09Scenarios(cfg runCfg) []Scenario {
 	}
 	for j := 0; j < cfg.n(200, 100); j++ {
 		if cfg.mine(i) {
-			out = append(out, Scenario{Family: "failfiles", Seed: mix(cfg.seed, 9, 1, uint64(j)), N: pick(newRng(uint64(j)), []int{1, 3, 17, 100}), K: 1 + j%5})
+			out = append(out, Scenario{Family: "failfiles", Seed: mix(cfg.seed, 9, 1, uint64(j)), N: pick(newRng(uint64(j)), []int{1, 3, 17, 100, 0, 2}), K: 1 + j%5})
 		}
 		i++
 	}
@@ -62,7 +62,7 @@ func c09Scenarios(cfg runCfg) []Scenario {
 	}
 	for j := 0; j < cfg.n(48, 50); j++ {
 		if cfg.mine(i) {
-			out = append(out, Scenario{Family: "flaky-failfile", Seed: mix(cfg.seed, 9, 4, uint64(j)), N: pick(newRng(uint64(j)), []int{5, 20, 100})})
+			out = append(out, Scenario{Family: "flaky-failfile", Seed: mix(cfg.seed, 9, 4, uint64(j)), N: pick(newRng(uint64(j)), []int{5, 20, 100, 0})})
 		}
 		i++
 	}
@@ -148,6 +148,12 @@ func c09Run(t *testing.T, sc Scenario, res *Result) {
 		body := func(x *X) {
 			calls++
 			var h uint64 = salt
+			if strings.HasPrefix(sigma, "early-") {
+				// skipped before anything is drawn: the case is as invalid as any other skipped one, and the next one is tried
+				if (sigma == "early-every3" && calls%3 == 0) || (sigma == "early-first9of10" && calls%10 != 0) {
+					x.skip(sigma)
+				}
+			}
 			for i := 0; i < nd; i++ {
 				v := x.draw(rapid.Uint64().AsAny(), fmt.Sprintf("u%d", i))
 				h = mix(h, v.(uint64))
@@ -211,7 +217,8 @@ func c09Run(t *testing.T, sc Scenario, res *Result) {
 			}
 		}
 		flagN := sc.N
-		short := sc.Family == "passing" && mix(sc.Seed, 0x5407)%4 == 0 && sc.N >= 5
+		// (with fail files present also when that leaves no random test case at all: the files are replayed all the same)
+		short := (sc.Family == "passing" && mix(sc.Seed, 0x5407)%4 == 0 && sc.N >= 5) || (sc.Family == "failfiles" && mix(sc.Seed, 0x5407)%4 == 0)
 		if short {
 			// -short: a fifth of the checks - and a fifth of the budget of skipped cases
 			if err := flag.Set("test.short", "true"); err == nil {
@@ -273,7 +280,7 @@ func c09Run(t *testing.T, sc Scenario, res *Result) {
 			if cr.tb.Failed() {
 				res.violate(sc, "c09/pass-failed", "TB is failed although Check reported OK", detail)
 			}
-			if completed > 0 {
+			if completed > 0 || buffers > 0 {
 				res.nontrivial(fmt.Sprintf("pass/%d/%s/%d", sc.N, sigma, k))
 			}
 		case cr.rp.Kind == "only":
